@@ -135,12 +135,23 @@ func concurrent(r *run.R, race bool) {
 	var mu sync.Mutex
 	run.Parallel(cases, 0, func(i int) {
 		caseID := fmt.Sprintf("conc/%d", i)
-		if !r.Want(caseID) || r.TooMany() {
+		if (!r.Want(caseID) && i%4 != 3) || r.TooMany() {
 			return
 		}
-		cc := genConc(r.Rand(14, 2, uint64(i)))
-		var res *concResult
-		synctest.Test(r.T, func(*testing.T) { res = runConc(cc) })
+		var cc concCase
+		if i%4 == 3 {
+			caseID = fmt.Sprintf("conc-trimrace/%d", i)
+			if !r.Want(caseID) {
+				return
+			}
+			cc = genTrimRace(r.Rand(14, 3, uint64(i)))
+			r.Count("trimrace_cases", 1)
+		} else {
+			cc = genConc(r.Rand(14, 2, uint64(i)))
+		}
+		var x *concRun
+		synctest.Test(r.T, func(*testing.T) { x = runConc(cc) })
+		res := x.analyse()
 		mu.Lock()
 		defer mu.Unlock()
 		r.Eval(1)
